@@ -232,6 +232,9 @@ func c18Render(items []c18It, l *c18Layout) string {
 				hasPend = true
 			} else {
 				closeTag()
+				if it.K == 'S' && items[i-1].K == 'H' && i+1 < len(items) && items[i+1].K == 'H' {
+					break // two adjacent pieces of text are ONE run of text: a comment tag here would be inside a statement
+				}
 				for _, c := range d.Comments {
 					sb.WriteString("<%#" + c + "%>")
 				}
@@ -289,10 +292,11 @@ func c18Ctx() *plush.Context {
 	return plush.NewContextWith(map[string]interface{}{
 		"a": 3, "b": 4, "n": 0, "s": "str", "t": "<t>", "a-b": 7,
 		"xs": []interface{}{1, 2, 3}, "ys": []interface{}{"x", "y"},
-		"m":   map[string]interface{}{"k": 1, "j": "v"},
-		"p":   c18Person{Name: "Ann", Age: 30},
-		"add": func(x, y int) int { return x + y },
-		"up":  strings.ToUpper,
+		"m":    map[string]interface{}{"k": 1, "j": "v"},
+		"p":    c18Person{Name: "Ann", Age: 30},
+		"add":  func(x, y int) int { return x + y },
+		"up":   strings.ToUpper,
+		"wrap": c18Wrap,
 	})
 }
 
@@ -321,6 +325,29 @@ type c18G struct {
 	strs   []string
 	arrs   []string
 	fns    []string
+	// block-value programs (template mode only): the VALUE of a block is used as a value, not only printed
+	bv   bool
+	vals []string // variables bound to the value of an if / for expression
+	vfns []string // functions whose body may hold text / output tags and may fall off its end
+}
+
+// snap remembers the names in scope; the returned function forgets every name introduced since
+func (g *c18G) snap() func() {
+	i, w, a, f, v, vf := g.ints, g.strs, g.arrs, g.fns, g.vals, g.vfns
+	return func() { g.ints, g.strs, g.arrs, g.fns, g.vals, g.vfns = i, w, a, f, v, vf }
+}
+
+// valE: an expression whose value is what a block evaluated to
+func (g *c18G) valE() []string {
+	n := len(g.vals) + len(g.vfns)
+	if !g.bv || n == 0 {
+		return nil
+	}
+	k := g.r.Intn(n)
+	if k < len(g.vals) {
+		return []string{g.vals[k]}
+	}
+	return append(append(append([]string{g.vfns[k-len(g.vals)], "("}, g.intE(0)...), ","), append(g.intE(0), ")")...)
 }
 
 func (g *c18G) id() int { g.next++; return g.next }
@@ -373,6 +400,14 @@ func (g *c18G) intE(d int) []string {
 }
 
 func (g *c18G) strE(d int) []string {
+	if g.bv && d > 0 && len(g.vals)+len(g.vfns) > 0 && g.r.Chance(25) {
+		e := append(g.strE(0), "+")
+		e = append(e, g.valE()...)
+		if g.r.Bool() {
+			e = append(append(e, "+"), g.strE(0)...)
+		}
+		return e
+	}
 	k := g.r.Intn(8)
 	if d <= 0 && k >= 5 {
 		k = g.r.Intn(5)
@@ -397,6 +432,19 @@ func (g *c18G) strE(d int) []string {
 }
 
 func (g *c18G) boolE(d int) []string {
+	if g.bv && len(g.vals)+len(g.vfns) > 0 && g.r.Chance(30) {
+		switch g.r.Intn(8) {
+		case 0, 1, 2:
+			return g.valE()
+		case 3, 4:
+			return append([]string{"!"}, g.valE()...)
+		case 5:
+			return append(append(g.strE(0), Pick(g.r, []string{"==", "!="})), g.valE()...)
+		case 6:
+			return append(append(g.valE(), Pick(g.r, []string{"==", "!="})), g.strE(0)...)
+		}
+		return append(append(g.valE(), Pick(g.r, []string{"&&", "||"})), g.boolE(0)...)
+	}
 	k := g.r.Intn(12)
 	if d <= 0 && k >= 8 {
 		k = g.r.Intn(8)
@@ -437,6 +485,9 @@ func (g *c18G) arrE() []string {
 }
 
 func (g *c18G) anyE(d int) []string {
+	if g.bv && len(g.vals)+len(g.vfns) > 0 && g.r.Chance(30) {
+		return g.valE()
+	}
 	switch g.r.Intn(8) {
 	case 0, 1, 2:
 		return g.intE(d)
@@ -455,6 +506,7 @@ type c18Scope struct {
 	inLoop bool
 	inFn   bool
 	print  bool // inside a printing block (or top level): output is visible
+	text   bool // text and output tags are generated although inside a function body (they are part of its value)
 }
 
 func (g *c18G) newVar(kind string) string {
@@ -463,6 +515,9 @@ func (g *c18G) newVar(kind string) string {
 }
 
 func (g *c18G) stmt(sc c18Scope) *c18Stmt {
+	if g.bv && sc.depth < 3 && g.r.Chance(30) {
+		return g.bvStmt(sc)
+	}
 	s := &c18Stmt{ID: g.id(), Kind: 's'}
 	k := g.r.Intn(100)
 	if sc.depth >= 3 && k >= 50 && k < 82 {
@@ -507,8 +562,7 @@ func (g *c18G) stmt(sc c18Scope) *c18Stmt {
 		sub.print = s.Print
 		// names introduced in a branch are used inside that branch only (it may not run)
 		branch := func(n int) []*c18Stmt {
-			i, w, a, f := g.ints, g.strs, g.arrs, g.fns
-			defer func() { g.ints, g.strs, g.arrs, g.fns = i, w, a, f }()
+			defer g.snap()()
 			return g.seq(sub, n)
 		}
 		s.Elems = c18T(append(append([]string{"if", "("}, g.boolE(2)...), ")", "{")...)
@@ -535,7 +589,7 @@ func (g *c18G) stmt(sc c18Scope) *c18Stmt {
 		}
 		hdr = append(append(hdr, g.arrE()...), "{")
 		s.Elems = c18T(hdr...)
-		old, oldW, oldA, oldF := g.ints, g.strs, g.arrs, g.fns
+		restore := g.snap()
 		g.ints = append(append([]string{}, g.ints...), v)
 		body := g.seq(sub, g.r.Range(0, 3))
 		if g.r.Chance(40) { // a guarded break / continue somewhere in the body
@@ -548,21 +602,21 @@ func (g *c18G) stmt(sc c18Scope) *c18Stmt {
 		if g.r.Chance(10) {
 			body = append(body, &c18Stmt{ID: g.id(), Kind: 's', Elems: c18T(Pick(g.r, []string{"break", "continue"}))})
 		}
-		g.ints, g.strs, g.arrs, g.fns = old, oldW, oldA, oldF
+		restore()
 		s.Elems = append(s.Elems, c18Elem{IsBlk: true, Block: body}, c18Elem{Tok: "}"})
 	case k < 82 && !sc.inFn: // fn literal
 		s.Owner = "fn"
 		f := "f" + strconv.Itoa(g.r.Intn(2)+1)
 		sub := sc
 		sub.depth++
-		sub.inFn, sub.inLoop, sub.print = true, false, false
+		sub.inFn, sub.inLoop, sub.print, sub.text = true, false, false, false
 		s.Elems = c18T("let", f, "=", Pick(g.r, []string{"fn", "func"}), "(", "x", ",", "y", ")", "{")
-		old, oldFns, oldW, oldA := g.ints, g.fns, g.strs, g.arrs
+		restore := g.snap()
 		g.ints = append(append([]string{}, g.ints...), "x", "y")
-		g.fns = nil // no calls of user functions inside a function body: no recursion
+		g.fns, g.vfns = nil, nil // no calls of user functions inside a function body: no recursion
 		body := g.seq(sub, g.r.Range(0, 2))
 		body = append(body, &c18Stmt{ID: g.id(), Kind: 's', Elems: c18T(append([]string{"return"}, g.intE(1)...)...)})
-		g.ints, g.fns, g.strs, g.arrs = old, oldFns, oldW, oldA
+		restore()
 		s.Elems = append(s.Elems, c18Elem{IsBlk: true, Block: body}, c18Elem{Tok: "}"})
 		if !c18Has17(g.fns, f) {
 			g.fns = append(g.fns, f)
@@ -571,10 +625,10 @@ func (g *c18G) stmt(sc c18Scope) *c18Stmt {
 		s.Elems = c18T(append(append([]string{"out", "("}, g.anyE(2)...), ")")...)
 	case !sc.inFn && g.script:
 		s.Elems = c18T("out", "(", Pick(g.r, []string{`"x"`, `" "`, `"# no comment"`, `"%>"`, `"<%"`, "`\n`"}), ")")
-	case k < 94 && !sc.inFn: // output tag
+	case k < 94 && (!sc.inFn || sc.text): // output tag
 		s.Kind = 'E'
 		s.Elems = c18T(g.anyE(2)...)
-	case !sc.inFn:
+	case !sc.inFn || sc.text:
 		s.Kind = 'H'
 		s.Text = Pick(g.r, []string{"x", " ", "\n", "<p>", "a b", "|", ";", "}", "{", "# no comment", "\r\n"})
 	default:
@@ -606,7 +660,11 @@ func c18Gen(r *Rng, n int) []*c18Stmt { return c18GenMode(r, n, false) }
 // script = true: a pure-code program (the text of a plush script); effects are calls of out(e)
 func c18GenMode(r *Rng, n int, script bool) []*c18Stmt {
 	g := &c18G{r: r, script: script, ints: []string{"a", "b", "n"}, strs: []string{"s", "t"}, arrs: []string{"xs", "ys"}}
+	g.bv = !script && r.Chance(35) // block-value program (oracle_c18_blockval.go)
 	prog := g.seq(c18Scope{print: true}, n)
+	if g.bv {
+		prog = g.bvObserve(prog)
+	}
 	// observe the variables at the end
 	for _, v := range []string{Pick(r, g.ints), Pick(r, g.ints), Pick(r, g.strs), Pick(r, g.arrs)} {
 		if script {
@@ -1019,10 +1077,11 @@ func c18Decidable(items []c18It) []int {
 func init() {
 	oracles["C18"] = func(cfg Config) []*Report {
 		rep := NewReport("C18", "C18", cfg)
-		rep.Rule = "programs as token trees (let, assignment, index assignment, calls, if/else-if/else, for with guarded break/continue, fn/func literals with return and calls, hash/array/string/back-quote literals, dashed and dotted identifiers, printing <%= if/for %> blocks with text and <%= e %> tags inside) over a fixed data context; per program: the canonical layout (one statement per tag, single spaces), every cut/merge pattern of the statement and block boundaries when there are <= 7 of them (merged with LF and with ';'), plus random layouts: separators from {nothing, space, tab, LF, CRLF, '# comment'+LF} in every token gap / after the opener / before the closer, boundaries cut or merged (white space, line comment, ';'), <%# %> comment tags at boundaries; a separator is never removed where the neighbouring bytes would fuse (identifier/number bytes incl. '-' and '.', two-byte operators, tag delimiters), no statement begins with ( [ { - so that merging cannot turn two statements into one expression; non-trivial = layout text differs from the canonical text; distinct by (layout text); a mismatch is shrunk (layout entries back to canonical, statements deleted) and bucketed by the surviving layout entries in token-class terms"
+		rep.Rule = "programs as token trees (let, assignment, index assignment, calls, if/else-if/else, for with guarded break/continue, fn/func literals with return and calls, hash/array/string/back-quote literals, dashed and dotted identifiers, printing <%= if/for %> blocks with text and <%= e %> tags inside) over a fixed data context; per program: the canonical layout (one statement per tag, single spaces), every cut/merge pattern of the statement and block boundaries when there are <= 7 of them (merged with LF and with ';'), plus random layouts: separators from {nothing, space, tab, LF, CRLF, '# comment'+LF} in every token gap / after the opener / before the closer, boundaries cut or merged (white space, line comment, ';'), <%# %> comment tags at boundaries, plus systematic comment-tag layouts (one tag at every boundary; a single tag at each of up to 6 boundaries (2 in programs without block values), everything else canonical); 35% of the programs are block-value programs (oracle_c18_blockval.go): functions whose body holds text / output tags / printing blocks with an optional guarded return and an optional final return (a call may fall off the end), let u = if/else-if/else and let u = for expressions with 0-2 statement blocks, block helper calls wrap() { }, and these values used shape-sensitively (string concatenation, if condition, ! && || == !=, output tag); a separator is never removed where the neighbouring bytes would fuse (identifier/number bytes incl. '-' and '.', two-byte operators, tag delimiters), no statement begins with ( [ { - so that merging cannot turn two statements into one expression; non-trivial = layout text differs from the canonical text; distinct by (layout text); a mismatch is shrunk (layout entries back to canonical, statements deleted) and bucketed by the surviving layout entries in token-class terms"
 		rep.Notes = append(rep.Notes,
 			"'# comment' inside a statement (between two tokens that are not at a statement boundary) is generated in a third of the random layouts; the statement text names comments 'between statements' only, so such findings appear under gap-line-comment[...] family ids of their own",
 			"errors are compared after deleting every 'line N: ' prefix",
+			"a comment tag is never written between two adjacent pieces of literal text: they are one run of text, so the tag would sit inside a statement, not between two (plush then sees two text statements, which shows when the enclosing block's value is concatenated: '[0 0]' instead of '[00]'); the statement leaves that open",
 			"the exhaustive cut/merge enumeration covers all boundaries of a program (nested ones included) when there are at most 7; with more, 3 fixed patterns (all cut, all merged with LF, all merged with ';') and random ones")
 		if strings.HasPrefix(cfg.Arg, c18EntryPrefix) {
 			return []*Report{c18EntryReplay(cfg)}
@@ -1072,6 +1131,10 @@ func init() {
 			canon := c18Render(items, c18NewLayout())
 			want := c18Obs(canon)
 			rep.Tag("canonical:" + strings.SplitN(want, " ", 2)[0])
+			bvTags := c18BVTags(items)
+			for _, t := range bvTags {
+				rep.Tag(t)
+			}
 			var layouts []*c18Layout
 			dec := c18Decidable(items)
 			if len(dec) <= 7 {
@@ -1102,6 +1165,11 @@ func init() {
 			}
 			for k := 0; k < 12; k++ {
 				layouts = append(layouts, c18RandLayout(r, items, k%3, k%3 == 0))
+			}
+			if len(bvTags) > 0 {
+				layouts = append(layouts, c18CommentLayouts(r, items, 6)...)
+			} else {
+				layouts = append(layouts, c18CommentLayouts(r, items, 2)...)
 			}
 			reported := map[string]bool{}
 			for _, l := range layouts {
